@@ -25,6 +25,10 @@ void harness(void) {
     VERIF_BEGIN();
     ASSUME(form < 4); optional &= 1; strict &= 1;
     if(form == 0) { t[0] = '$'; t[1] = ','; t[2] = 0; } else if(form == 1) { t[0] = ','; t[1] = 0; } else if(form == 2) { t[0] = ' '; t[1] = '$'; t[2] = ' '; t[3] = ')'; t[4] = 0; } else { t[0] = ' '; t[1] = ')'; t[2] = 0; }
+#ifdef EXCLUDE_KF_C15_1
+    /* known finding KF-C15-1 assumed away: lenient mode, required INTEGER/REAL/NUMBER */
+    ASSUME(!(KIND <= 2 && !optional && !strict));
+#endif
     sev = w_attr_read(KIND, t, optional, strict, &iv, &rv, &pos, w, 12);
     OBS("kind=%d text=[%s] opt=%d strict=%d sev=%d iv=%ld rv=%g pos=%ld written=[%s]", KIND, t, optional, strict, sev, iv, rv, pos, w);
     CHECK(t[pos] == ',' || t[pos] == ')', "the stream is left at the delimiter");
